@@ -1,0 +1,9 @@
+// SPDX-License-Identifier: Apache-2.0
+
+//go:build !verif
+
+package pfcpiface
+
+// verifPoint is a scheduling/observation point used only by the external
+// verification harness (build tag "verif"). Without the tag it is a no-op.
+func verifPoint(string, ...interface{}) {}
